@@ -150,6 +150,7 @@ func init() {
 		"github.com/goblimey/go-tools/dailylogger.New":             icDailyLoggerNew,
 		"(*github.com/goblimey/go-tools/dailylogger.Writer).Write": icDailyLoggerWrite,
 	}
+	libIntercepts(interceptTable)
 }
 
 func noop2(fr *frame, args []value) value { return tuple{BV(0, 64), iface{}} }
